@@ -1303,3 +1303,61 @@ pub mod witness_c06 {
         bad
     }
 }
+
+// ---------------------------------------------------------------------------------------------
+// C15 witness (file-backed; real redb; not compiled by Kani)
+// ---------------------------------------------------------------------------------------------
+#[cfg(not(kani))]
+pub mod witness_c15 {
+    use super::Store;
+    use crate::store::{DownloadPolicy, FilterKind};
+    use crate::NamespaceSecret;
+
+    /// C15 (persistence): a policy can only be set for an existing document and a refused set leaves no
+    /// trace (also after the document is created later, and after reopening the file); a policy that was
+    /// set is read back unchanged, survives flush + reopen, and other documents keep theirs.
+    pub fn run() -> bool {
+        let mut bad = false;
+        let path = std::env::temp_dir().join(format!("verif-c15store-{}.redb", std::process::id()));
+        let _ = std::fs::remove_file(&path);
+        let ns1 = NamespaceSecret::from_bytes(&[51u8; 32]);
+        let ns2 = NamespaceSecret::from_bytes(&[52u8; 32]);
+        let p1 = DownloadPolicy::NothingExcept(vec![FilterKind::Exact("foo".into()), FilterKind::Prefix(vec![0xffu8, 0x00].into())]);
+        let p2 = DownloadPolicy::EverythingExcept(vec![FilterKind::Prefix("".into())]);
+        {
+            let mut store = Store::new_impl(redb::Database::create(&path).unwrap()).unwrap();
+            // refused sets (document unknown), twice
+            for round in 0..2 {
+                if store.set_download_policy(&ns1.id(), p1.clone()).is_ok() {
+                    eprintln!("c15store: round {round}: a policy was accepted for a document that does not exist");
+                    bad = true;
+                }
+            }
+            // the document is created later: it must start with the default policy
+            drop(store.new_replica(ns1.clone()).unwrap());
+            let got = store.get_download_policy(&ns1.id()).unwrap();
+            if got != DownloadPolicy::default() {
+                eprintln!("c15store: a refused set left a policy behind: {got:?}");
+                bad = true;
+            }
+            drop(store.new_replica(ns2.clone()).unwrap());
+            store.set_download_policy(&ns1.id(), p1.clone()).unwrap();
+            store.set_download_policy(&ns2.id(), p2.clone()).unwrap();
+            store.set_download_policy(&ns1.id(), p1.clone()).unwrap();
+            if store.get_download_policy(&ns1.id()).unwrap() != p1 || store.get_download_policy(&ns2.id()).unwrap() != p2 {
+                eprintln!("c15store: a policy that was set is not read back unchanged");
+                bad = true;
+            }
+            store.flush().unwrap();
+        }
+        {
+            let mut store = Store::new_impl(redb::Database::create(&path).unwrap()).unwrap();
+            if store.get_download_policy(&ns1.id()).unwrap() != p1 || store.get_download_policy(&ns2.id()).unwrap() != p2 {
+                eprintln!("c15store: policies changed across reopen");
+                bad = true;
+            }
+        }
+        let _ = std::fs::remove_file(&path);
+        bad
+    }
+}
